@@ -352,7 +352,51 @@ func runC10_5(c *core.Ctx) {
 				}
 			}
 			if dd == nil {
-				c.Violate(f.Name, "defer done()", f.Decl.Pos(), "a consuming operation no longer defers done(): a drained ring is never returned to the pool (and IsEmpty bookkeeping of the wrapper drifts)")
+				// no defer: done() must then be called explicitly after the consuming call on every path to a return
+				const (
+					sIdle = iota
+					sConsumed
+				)
+				au := &flow.Auto{Start: sIdle}
+				au.Node = func(b *flow.Block, i int, n ast.Node, st int) int {
+					for _, call := range flow.Calls(n) {
+						if r := flow.Recv(call); r != nil && flow.FieldOf(f.Info, r) == a.rbField {
+							if sel, ok := call.Fun.(*ast.SelectorExpr); ok && sel.Sel.Name == name {
+								st = sConsumed
+							}
+						}
+						if cf := flow.CalleeFunc(f.Info, call); cf != nil && nameOf(cf) == "instance" && name == "WriteTo" {
+							st = sConsumed
+						}
+						if flow.IsCall(f.Info, call, done.Obj) {
+							st = sIdle
+						}
+					}
+					return st
+				}
+				sol := g.Run(au)
+				var bad token.Pos
+				consumes := false
+				sol.Walk(func(b *flow.Block, i int, n ast.Node, before uint64) {
+					if before&(1<<sConsumed) != 0 {
+						consumes = true
+					}
+				})
+				sol.AtExit(func(b *flow.Block, _ uint64) {
+					if sol.Out(b)&(1<<sConsumed) != 0 {
+						consumes = true
+						if bad == token.NoPos {
+							bad = b.Return.Pos()
+						}
+					}
+				})
+				at := f.Decl.Pos()
+				if bad != token.NoPos {
+					at = bad
+				}
+				_ = consumes
+				c.Check(bad == token.NoPos, f.Name, "defer done()", at, "done() runs after the consuming call on every path (explicitly, no defer)",
+					"a consuming operation neither defers done() nor calls it after consuming on every path to a return: a drained ring is never returned to the pool (and IsEmpty bookkeeping of the wrapper drifts)")
 				continue
 			}
 			p := &flow.Problem{Must: true}
